@@ -3,6 +3,8 @@ package common
 import (
 	"fmt"
 
+	errors "golang.org/x/xerrors"
+
 	"golang.org/x/text/encoding"
 	"golang.org/x/text/encoding/charmap"
 	"golang.org/x/text/encoding/ianaindex"
@@ -52,7 +54,12 @@ func StringUtils_guessCharset(bytes []byte, hints map[gozxing.DecodeHintType]int
 			return eci.GetCharset(), nil
 		}
 
-		return ianaindex.IANA.Encoding(name)
+		enc, e := ianaindex.IANA.Encoding(name)
+		if e == nil && enc == nil {
+			// a registered IANA name without an implementation
+			return nil, errors.Errorf("unsupported character set: %v", name)
+		}
+		return enc, e
 	}
 
 	// First try UTF-16, assuming anything with its BOM is UTF-16
